@@ -113,8 +113,8 @@ def computeEdges (data : List Byte) (w ws minMatch maxMatch : Nat) : OsapD :=
     let lcp := lcpKasai t sa (invertSA sa)
     let maxLen := min (lcp.foldl max 0) maxMatch
     let woff : Int := (winStart : Int) - (w : Int)
-    match segments sa.size lcp (minMatch : Int) (maxLen : Int) with
-    | none => { edges := edges0, start := w, nEdges := 0 }   -- minMatch > MaxInt32 ≥ maxLen: the Go code returns before calling Segments (fix 7b1daf1); same result
+    match segments32 sa.size lcp (minMatch : Int) (maxLen : Int) with
+    | none => { edges := edges0, start := w, nEdges := 0 }   -- unreachable in Go (see `segments32`)
     | some cbs =>
       let (edges, cnt) := cbs.foldl (fun acc cb =>
           let (m, lo, hi) := cb
